@@ -651,6 +651,12 @@ func (f *FnVC) makeSlice(st *State, x *ssa.MakeSlice) {
 		o := f.oblige("make", f.srcKey(x.Pos()), st, and(app("bvsge", SBool, n, u64(0)), app("bvsle", SBool, n, c), app("bvsle", SBool, c, u64(1<<56))), x.Pos(), "make: length negative, above capacity, or beyond any addressable size (2^56)")
 		_ = o
 	}
+	if f.checks["alloc"] {
+		// allocation bound for decoders of untrusted input: a make of more than 2^23 elements (8 MiB of bytes, the largest
+		// documented cap: codec.UncompressedCap) is out of proportion to any payload. A negative or inverted size is not flagged here: it raises a runtime error,
+		// which the decoder's recover turns into a returned error.
+		f.oblige("alloc", f.srcKey(x.Pos()), st, app("bvsle", SBool, c, u64(1<<23)), x.Pos(), "make: capacity above 2^23 elements (allocation out of proportion to the payload)")
+	}
 	// after a successful make the sizes are in range
 	f.assume(st, and(app("bvsge", SBool, n, u64(0)), app("bvsle", SBool, n, c), app("bvule", SBool, c, u64(1<<56))))
 	r := f.newRef(st)
